@@ -4,26 +4,6 @@ From TV Require Import Common.PyVal Common.Harness C03.Model C03.Law C03.Proofs 
 Import ListNotations.
 Open Scope Z_scope.
 
-(* ---------- induction on trait descriptions with the nested lists ---------- *)
-Section desc_ind_nested.
-  Variable P : desc -> Prop.
-  Hypothesis Hleaf : forall d, (forall ds, d <> DTuple ds /\ d <> DCompound ds /\ d <> DUnion ds) -> P d.
-  Hypothesis Htuple : forall ds, Forall P ds -> P (DTuple ds).
-  Hypothesis Hcomp : forall ds, Forall P ds -> P (DCompound ds).
-  Hypothesis Hunion : forall ds, Forall P ds -> P (DUnion ds).
-
-  Fixpoint desc_ind' (d : desc) : P d.
-  Proof.
-    assert (L : forall ds, Forall P ds).
-    { fix IHl 1. intros [|a ds]; [constructor | constructor; [apply desc_ind' | apply IHl]]. }
-    destruct d.
-    all: try (apply Hleaf; intros ds0; repeat split; discriminate).
-    - apply Htuple, L.
-    - apply Hcomp, L.
-    - apply Hunion, L.
-  Defined.
-End desc_ind_nested.
-
 (* ---------- hypotheses of soundness (each a decidable condition) ---------- *)
 (* F18: Instance(C, allow_none=False) / This(allow_none=False) with None an instance of C *)
 Fixpoint none_sound (E : env) (d : desc) : bool :=
@@ -227,6 +207,11 @@ Proof.
     cbn. eapply complete_value_in; eauto.
   - (* DCompound *) exfalso. destruct (Hleaf ds) as (_ & H & _). now apply H.
   - (* DUnion *) exfalso. destruct (Hleaf ds) as (_ & _ & H). now apply H.
+  - (* DArray *) unfold py_array.
+    match goal with |- match ?x with _ => _ end = _ -> _ => destruct x as [a0|] end; [|discriminate].
+    match goal with |- match ?x with _ => _ end = _ -> _ => destruct x as [a1|] end; [|discriminate].
+    destruct (arr_dtype_ok dt a1) eqn:H1; [|discriminate]. destruct (arr_shape_ok shape a1) eqn:H2; [|discriminate].
+    intros Hx; inversion Hx; subst. destruct w; try discriminate. cbn in *. now rewrite H1, H2.
 Qed.
 
 Lemma tuple_sound E ds : Forall (sound_at E) ds -> sound_at E (DTuple ds).
@@ -636,6 +621,10 @@ Proof.
   - unfold py_prefix. destruct (str_of v); [|discriminate]. destruct (complete_value (map fst m) v l); discriminate.
   - exfalso. destruct (Hleaf ds) as (_ & H & _). now apply H.
   - exfalso. destruct (Hleaf ds) as (_ & _ & H). now apply H.
+  - (* DArray *) unfold py_array.
+    match goal with |- match ?x with _ => _ end = _ -> _ => destruct x as [a0|] end; [|discriminate].
+    match goal with |- match ?x with _ => _ end = _ -> _ => destruct x as [a1|] end; [|discriminate].
+    destruct (arr_dtype_ok dt a1 && arr_shape_ok shape a1); discriminate.
 Qed.
 
 Lemma own_protocol_lemma E d v e :
@@ -771,6 +760,59 @@ Proof.
   rewrite Forall_forall in HF. specialize (HF a Hin). unfold conv_at in HF. eauto using forallb_in.
 Qed.
 
+Lemma orc_find_in t f v w : orc_find t f v = Some w -> existsb (fun e => pv_eqb (snd e) w) t = true.
+Proof.
+  induction t as [|[[g x] y] t IH]; cbn; [discriminate|].
+  destruct ((g =? f) && pv_eqb x v).
+  - intros H; inversion H; subst. now rewrite pv_eqb_refl.
+  - intros H. rewrite (IH H). apply orb_true_r.
+Qed.
+
+Lemma as_array_in E f v a : as_array (oracle E f v) = Some a -> existsb (fun e => pv_eqb (snd e) a) (e_orc E) = true.
+Proof.
+  unfold oracle. destruct (orc_find (e_orc E) f v) as [x|] eqn:H; [|discriminate].
+  destruct x; try discriminate. cbn. intros Hx; inversion Hx; subst. eapply orc_find_in; eauto.
+Qed.
+
+Lemma py_array_conv E dt shape casting v w :
+  py_array E dt shape casting v = Accept w -> conv_ok E (DArray dt shape casting) v w = true.
+Proof.
+  unfold py_array. cbn [conv_ok].
+  destruct v; try discriminate.
+  - (* tuple *) destruct (as_array (oracle E (match dt with Some t => 300 + t | None => 299 end) (PTuple l))) as [a0|] eqn:H0; [|discriminate].
+    pose proof (as_array_in _ _ _ _ H0) as Hin0.
+    destruct (arr_dtype_ok dt a0) eqn:Hd.
+    + destruct (arr_dtype_ok dt a0 && arr_shape_ok shape a0); [|discriminate]. intros Hx; inversion Hx; now subst.
+    + destruct dt as [t|]; [|discriminate].
+      destruct (as_array (oracle E (400 + 10 * t + casting) a0)) as [a1|] eqn:H1; [|discriminate].
+      destruct (arr_dtype_ok (Some t) a1 && arr_shape_ok shape a1); [|discriminate].
+      intros Hx; inversion Hx; subst. eapply as_array_in; eauto.
+  - (* tuple subclass *) destruct (as_array (oracle E (match dt with Some t => 300 + t | None => 299 end) (PTupleSub l))) as [a0|] eqn:H0; [|discriminate].
+    pose proof (as_array_in _ _ _ _ H0) as Hin0.
+    destruct (arr_dtype_ok dt a0) eqn:Hd.
+    + destruct (arr_dtype_ok dt a0 && arr_shape_ok shape a0); [|discriminate]. intros Hx; inversion Hx; now subst.
+    + destruct dt as [t|]; [|discriminate].
+      destruct (as_array (oracle E (400 + 10 * t + casting) a0)) as [a1|] eqn:H1; [|discriminate].
+      destruct (arr_dtype_ok (Some t) a1 && arr_shape_ok shape a1); [|discriminate].
+      intros Hx; inversion Hx; subst. eapply as_array_in; eauto.
+  - (* list *) destruct (as_array (oracle E (match dt with Some t => 300 + t | None => 299 end) (PList l))) as [a0|] eqn:H0; [|discriminate].
+    pose proof (as_array_in _ _ _ _ H0) as Hin0.
+    destruct (arr_dtype_ok dt a0) eqn:Hd.
+    + destruct (arr_dtype_ok dt a0 && arr_shape_ok shape a0); [|discriminate]. intros Hx; inversion Hx; now subst.
+    + destruct dt as [t|]; [|discriminate].
+      destruct (as_array (oracle E (400 + 10 * t + casting) a0)) as [a1|] eqn:H1; [|discriminate].
+      destruct (arr_dtype_ok (Some t) a1 && arr_shape_ok shape a1); [|discriminate].
+      intros Hx; inversion Hx; subst. eapply as_array_in; eauto.
+  - (* ndarray *) cbn [arr_dtype_ok].
+    destruct (match dt with Some t => dt0 =? t | None => true end) eqn:Hd.
+    + destruct (arr_dtype_ok dt (PArray dt0 shape0 cid) && arr_shape_ok shape (PArray dt0 shape0 cid)); [|discriminate].
+      intros Hx; inversion Hx; subst. apply pv_eqb_refl.
+    + destruct dt as [t|]; [|discriminate].
+      destruct (as_array (oracle E (400 + 10 * t + casting) (PArray dt0 shape0 cid))) as [a1|] eqn:H1; [|discriminate].
+      destruct (arr_dtype_ok (Some t) a1 && arr_shape_ok shape a1); [|discriminate].
+      intros Hx; inversion Hx; subst. eapply as_array_in; eauto.
+Qed.
+
 Lemma leaf_conv E d :
   bool_final E = true ->
   (forall ds, d <> DTuple ds /\ d <> DCompound ds /\ d <> DUnion ds) -> conv_at E d.
@@ -836,6 +878,7 @@ Proof.
       intros Hx; inversion Hx; apply pv_eqb_refl.
   - exfalso. destruct (Hleaf ds) as (_ & H & _). now apply H.
   - exfalso. destruct (Hleaf ds) as (_ & _ & H). now apply H.
+  - (* DArray *) apply py_array_conv.
 Qed.
 
 Lemma documented_conversion_lemma E d v w :
